@@ -1012,6 +1012,7 @@ class BaseConverter:
 
         self._unstructure_func.copy_to(res._unstructure_func, self._unstruct_copy_skip)
         self._structure_func.copy_to(res._structure_func, self._struct_copy_skip)
+        res._union_struct_registry.update(self._union_struct_registry)
 
         return res
 
@@ -1412,6 +1413,7 @@ class Converter(BaseConverter):
             res._unstructure_func, skip=self._unstruct_copy_skip
         )
         self._structure_func.copy_to(res._structure_func, skip=self._struct_copy_skip)
+        res._union_struct_registry.update(self._union_struct_registry)
 
         return res
 
